@@ -31,6 +31,9 @@ func runC05(p *Prog, r *Report) {
 	c03R1(p, r, "C05.R4")
 	c05R5(p, r)
 	ignoreUnexportedRule(p, r, "C05.R6")
+	c03R4(p, r, "C05.R8", []string{"builder"})
+	candidatesUnfilteredRule(p, r, "C05.R9")
+	fieldPathRule(p, r, "C05.R10")
 	armStoresRule(p, r, "C05.R7", "config.parseMethodLine", "map", "ignore", "autoMap")
 }
 
